@@ -110,11 +110,16 @@ TB = ('Schedule-symbolic BMC: goroutine bodies executed in open mode by the inte
       'the operation semantics in engine/wesym/bmc.py (mutex, RWMutex, unbuffered/buffered channel, select, close, context, FIFO list, scalar and channel-pointer cells, '
       'datastore arrays), sequential consistency. ')
 CLAIMED['C09'] = dict(
-    text='Schedule-symbolic BMC of concurrent SealEnvelope calls on one secret store (every datastore operation and every messageMutex operation a visible step): '
-         'stuck states, per-goroutine assertions and final-state assertions over the header counters of the returned envelopes (pairwise distinct, gap-free, increasing); '
-         'the datastore invariant used to avoid forking on reads (chain-key entry present and well-formed) is itself a state assertion of the BMC.',
-    note=TB + 'Bounds: the one-formula BMC harness (VerifC09Concurrent) is kept but no longer registered (did not finish in 40 minutes with the keystore executed for real); symbolic scheduler 2x1 on one and two groups, first use of a group (quick), 2x2 and 3x1 (thorough). Outside: receivers running concurrently, real parallel hardware below SC.',
-    design='4, 6/C09', technique='bounded model checking with symbolic schedules over go/ssa-derived operation sequences + SMT (z3)')
+    text='Forking symbolic execution of concurrent SealEnvelope calls on one secret store with a symbolic scheduler inside the interpreter (DESIGN 4b): goroutines share one '
+         'symbolic heap and change hands only at mutex / datastore / keystore operations; which enabled goroutine moves is a solver variable forked over like any branch, up to a '
+         'preemption bound. At quiescence nobody is blocked, every seal succeeded, the counters in the returned headers are pairwise distinct per group, gap-free and increasing per '
+         'sender, the stored chain key stands at the number of messages sealed, and a receiver that registered the announcement opens every envelope to its payload.',
+    note=TB.replace('Schedule-symbolic BMC: goroutine bodies executed in open mode by the interpreter (visible operations recorded, reads symbolic), one formula per tuple of '
+                    'operation sequences with free who_k/stop variables; stuck states, assertions and unwinding assertions decided by z3. ', '') +
+         'Bounds: 2 senders x 1 message on one and on two groups, first use of a group by two goroutines, the own announcement replayed while sending (quick); 2x2, 3x1 and higher preemption bounds (thorough). '
+         'The one-formula BMC harness (VerifC09Concurrent) is kept but no longer registered: it did not finish in 40 minutes once the keystore was executed for real. '
+         'Assumes sequential consistency and data-race freedom w.r.t. the synchronisation operations. Outside: receivers running concurrently.',
+    design='4b, 6/C09', technique='forking symbolic execution of go/ssa with a symbolic scheduler (context-bounded) + SMT (z3)')
 CLAIMED['C10'] = dict(
     text='Symbolic execution of receive / send / key-creation workloads with the crash point a free integer kappa masking every later datastore or keystore mutation '
          '(one run covers every crash point and no crash), then a new store on the surviving arrays: reopen by CID, still openable, no counter reuse across the restart, same keys.',
@@ -182,8 +187,6 @@ CLAIMED['C05']['note'] = TA + ('2-3 devices (one or two members, a late second d
                                'The OrbitDB event bus and real replication are NOT executed (log contract).')
 CLAIMED['C06']['text'] += (' After the handshake: contactRequestsManager.handleIncomingRequest with the handshake result an arbitrary authenticated key and the announced contact free: '
                            'whatever is recorded is a request of exactly that key.')
-CLAIMED['C09']['text'] += (' The same contract, and the first use of a group (two concurrent GetShareableChainKey while the own chain key does not exist yet), under the symbolic '
-                           'scheduler inside the interpreter (DESIGN 4b): every envelope opens at a receiver that registered the announcement it was given; the own announcement replayed through RegisterChainKey while sending.')
 CLAIMED['C11']['text'] += (' Isolation: a multi-member group with a FREE identifier (possibly a contact account key) used before/after changes neither the contact group nor the member key.')
 CLAIMED['C12']['text'] += (' The descriptor is also derived from a group carrying FREE optional public fields (signing key, link key, its signature).')
 CLAIMED['C13']['text'] += (' The same order-source check for MessageStore.ListEvents (messages of one sender, key known, log processed).')
